@@ -315,4 +315,16 @@ Section Getter.
 
   Definition manager_dep := manager_dep_gen true.
   Definition manager_dep_unrepaired := manager_dep_gen false.
+
+  (* Manager.downloadAll over all remote dependencies of a chart, in order: (repository, name,
+     version, the archive request was answered 200).  Every iteration builds a FRESH
+     ChartDownloader whose option list comes from that dependency's repository alone; the loop
+     stops at the first download that fails. *)
+  Fixpoint download_all (deps : list (string * string * string * bool)) (repos : list entry) (with_prov : bool)
+    : list (string * gres) :=
+    match deps with
+    | [] => []
+    | (dep_repo, name, version, ok) :: t =>
+        (manager_dep dep_repo name version repos with_prov ok ++ (if ok then download_all t repos with_prov else []))%list
+    end.
 End Getter.
